@@ -781,7 +781,16 @@ def _vectorize_func(func):
 
     # What should work once that Jax backend is fully supported
     signature = inspect.signature(func)
-    func_vec = numpy.vectorize(func)
+
+    # Fix the dtype of the output by the declared return type. Without `otypes`,
+    # numpy.vectorize infers the dtype from the result for the first row and casts the
+    # results for all other rows to it (e.g., truncating floats if the first row returns
+    # an integer literal).
+    return_type = getattr(func, "__annotations__", {}).get("return")
+    if return_type in (float, int, bool, "float", "int", "bool"):
+        func_vec = numpy.vectorize(func, otypes=[return_type])
+    else:
+        func_vec = numpy.vectorize(func)
 
     @functools.wraps(func)
     def wrapper_vectorize_func(*args, **kwargs):
